@@ -31,6 +31,7 @@ type SEnv struct {
 	fn    string // for error messages
 	pc    Term   // guard for auxiliary assumptions emitted during evaluation
 	noAssume bool // evaluation must not emit assumptions (axioms, lemmas)
+	bound []Term // quantified variables in scope
 }
 
 type evalErr string
@@ -73,7 +74,21 @@ func (env *SEnv) value(v *SVal) *SVal {
 		nv.T = env.u.loadType(env.cur, v.Addr, v.Go)
 		// heap well-formedness: every stored value satisfies its type invariant
 		if _, isStruct := v.Go.Underlying().(*types.Struct); !isStruct && !env.noAssume {
-			env.u.assume(env.pc, env.u.typeInv(nv.T, v.Go, env.u.comp(env.cur, "alloc")))
+			inv := env.u.typeInv(nv.T, v.Go, env.u.comp(env.cur, "alloc"))
+			var used []Term
+			for _, b := range env.bound {
+				if strings.Contains(nv.T.S, b.S) {
+					used = append(used, b)
+				}
+			}
+			if len(used) > 0 {
+				// inside a quantifier: well-formedness holds for every instance of the bound variables
+				if inv.S != "true" {
+					env.u.assume(True, Forall(used, Implies(env.pc, inv), []Term{nv.T}))
+				}
+			} else {
+				env.u.assume(env.pc, inv)
+			}
 		}
 		return &nv
 	}
@@ -175,9 +190,10 @@ func (env *SEnv) evalPlace(e *SExpr) *SVal {
 			vars = append(vars, q)
 			n.vars[b.Name] = &SVal{T: q, Go: ty.Go}
 		}
+		n.bound = append(append([]Term(nil), env.bound...), vars...)
 		body := n.evalB(e.Args[0])
 		if e.Op == "forall" {
-			return &SVal{T: Forall(vars, body), Go: types.Typ[types.Bool]}
+			return &SVal{T: Forall(vars, body, autoPatterns(body.S, vars)...), Go: types.Typ[types.Bool]}
 		}
 		return &SVal{T: Exists(vars, body), Go: types.Typ[types.Bool]}
 	}
@@ -431,7 +447,7 @@ func (env *SEnv) index(e *SExpr) *SVal {
 	case *types.Slice:
 		i := env.evalI(e.Args[1])
 		es := u.elemSort(t.Elem())
-		return &SVal{T: Select(Select(u.comp(env.cur, ecomp(es)), SArr(x.T)), Add(SOff(x.T), i)), Go: t.Elem()}
+		return &SVal{T: Select(Select(u.comp(env.cur, ecomp(es)), SArr(x.T)), ElemIdx(SOff(x.T), i)), Go: t.Elem()}
 	case *types.Map:
 		k := env.eval(e.Args[1])
 		k = env.coerceGo(k, t.Key())
@@ -634,4 +650,61 @@ func identName(d *ssa.DebugRef) string {
 		return id.Name
 	}
 	return ""
+}
+
+// autoPatterns picks triggers for a quantified body: the innermost array reads
+// (select A idx) whose index mentions the bound variable(s). Each candidate that
+// contains every bound variable becomes an alternative pattern.
+func autoPatterns(body string, vars []Term) [][]Term {
+	var cands []string
+	seen := map[string]bool{}
+	for i := 0; i+8 <= len(body); i++ {
+		if !strings.HasPrefix(body[i:], "(select ") {
+			continue
+		}
+		sub := firstSexp(body[i:])
+		all := true
+		for _, v := range vars {
+			if !strings.Contains(sub, v.S) {
+				all = false
+			}
+		}
+		if !all {
+			continue
+		}
+		// innermost: no strictly smaller select inside that still has all variables
+		inner := false
+		for j := 1; j+8 <= len(sub); j++ {
+			if strings.HasPrefix(sub[j:], "(select ") {
+				s2 := firstSexp(sub[j:])
+				ok := true
+				for _, v := range vars {
+					if !strings.Contains(s2, v.S) {
+						ok = false
+					}
+				}
+				if ok {
+					inner = true
+					break
+				}
+			}
+		}
+		if inner || seen[sub] {
+			continue
+		}
+		// triggers must not contain quantifiers or let-bound structure
+		if strings.Contains(sub, "(forall ") || strings.Contains(sub, "(exists ") {
+			continue
+		}
+		seen[sub] = true
+		cands = append(cands, sub)
+	}
+	var out [][]Term
+	for _, c := range cands {
+		if len(out) >= 4 {
+			break
+		}
+		out = append(out, []Term{{c, SBool}})
+	}
+	return out
 }
